@@ -501,8 +501,14 @@ func markerOfAbsentChunk(e *tsdbhist.Exec, dir, k string, pre map[uint64]bool) b
 		return false
 	}
 	post, markers := hcmark.HeadChunkRecs(dir), hcmark.WBLMarkers(dir)
+	refs := hcmark.SeriesRefsInWAL(dir, k)
 	for ref, ls := range e.DB.Head().VerifSeriesRefs() {
-		if ls.String() == k && hcmark.DanglingMarkerHonoured(pre, post, markers[ref]) {
+		if ls.String() == k {
+			refs = append(refs, ref)
+		}
+	}
+	for _, ref := range refs {
+		if hcmark.DanglingMarkerHonoured(pre, post, markers[ref]) {
 			return true
 		}
 	}
